@@ -743,3 +743,187 @@ Proof.
   exists (firstn 14 (run_log ex_a None fresh)), (skipn 15 (run_log ex_a None fresh)), true.
   split; [vm_compute; reflexivity|]. apply desired_nonempty. reflexivity.
 Qed.
+
+(* ------------------------------------------------------------------ an interrupted run is a prefix of the uninterrupted one *)
+(* w runs under some fault, w' under none; as long as no call failed both have the same database and issued the
+   same calls; once a call failed, w stops and w' only adds calls *)
+Definition sync (w w' : world) : Prop :=
+  w_db w = w_db w' /\ map fst (w_log w) = map fst (w_log w') /\ w_fault w' = None.
+Definition behind (l l' : list (call * bool)) : Prop := exists x, map fst l' = x ++ map fst l.
+Definition sim_res (r r' : world * bool) : Prop :=
+  snd r' = true /\ w_fault (fst r') = None /\
+  ((snd r = true /\ sync (fst r) (fst r')) \/ (snd r = false /\ behind (w_log (fst r)) (w_log (fst r')))).
+
+Lemma behind_refl_eq l l' : map fst l = map fst l' -> behind l l'.
+Proof. intro H. exists []. now rewrite H. Qed.
+Lemma behind_ext l l' x : behind l l' -> behind l (x ++ l').
+Proof. intros [y H]. exists (map fst x ++ y). rewrite map_app, H. now rewrite app_assoc. Qed.
+
+Lemma exec_sim w w' c : sync w w' -> sim_res (exec w c) (exec w' c).
+Proof.
+  intros [Hd [Hl Hf]]. unfold sim_res, exec. rewrite Hf.
+  destruct (w_fault w) as [[[|k] eff]|]; cbn [fst snd w_db w_log w_fault].
+  - split; [reflexivity|]. split; [reflexivity|]. right. split; [reflexivity|].
+    apply behind_refl_eq. cbn. now rewrite Hl.
+  - split; [reflexivity|]. split; [reflexivity|]. left. split; [reflexivity|].
+    split; [now rewrite Hd|]. split; [cbn; now rewrite Hl|reflexivity].
+  - split; [reflexivity|]. split; [reflexivity|]. left. split; [reflexivity|].
+    split; [now rewrite Hd|]. split; [cbn; now rewrite Hl|reflexivity].
+Qed.
+
+Lemma exec_all_ext cs w : exists l, w_log (fst (exec_all w cs)) = l ++ w_log w.
+Proof. destruct (exec_all_log cs w) as [l [H _]]. eauto. Qed.
+
+Lemma exec_all_sim : forall cs w w', sync w w' -> sim_res (exec_all w cs) (exec_all w' cs).
+Proof.
+  induction cs as [|c r IH]; intros w w' Hs.
+  - cbn. destruct Hs as [Hd [Hl Hf]]. split; [reflexivity|]. split; [exact Hf|]. left. split; [reflexivity|].
+    now split.
+  - cbn [exec_all]. pose proof (exec_sim w w' c Hs) as H.
+    destruct (exec w c) as [w1 ok] eqn:E, (exec w' c) as [w1' ok'] eqn:E'.
+    destruct H as [Hok' [Hf' H]]. cbn [fst snd] in Hok', Hf', H. subst ok'.
+    destruct H as [[-> Hs1]|[-> Hb]].
+    + now apply IH.
+    + pose proof (exec_all_nofault r w1' Hf') as [N1 N2].
+      split; [exact N1|]. split; [exact N2|]. right. split; [reflexivity|]. cbn [fst].
+      destruct (exec_all_ext r w1') as [x ->]. now apply behind_ext.
+Qed.
+
+Lemma alter_and_record_ext cfg g w : exists l, w_log (fst (alter_and_record cfg g w)) = l ++ w_log w.
+Proof. destruct (alter_and_record_calls cfg g w) as [l [H _]]. eauto. Qed.
+Lemma group_op_ext cfg g w : exists l, w_log (fst (group_op cfg g w)) = l ++ w_log w.
+Proof. destruct (group_op_calls cfg g w) as [l [H _]]. eauto. Qed.
+Lemma seq_ops_ext cfg : forall gs w, exists l, w_log (fst (seq_ops cfg gs w)) = l ++ w_log w.
+Proof.
+  induction gs as [|g r IH]; intros w; cbn; [now exists []|].
+  destruct (group_op cfg g w) as [w1 ok] eqn:E.
+  destruct (group_op_ext cfg g w) as [l1 H1]. rewrite E in H1. cbn [fst] in H1.
+  destruct ok; [|eauto].
+  destruct (IH w1) as [l2 H2]. exists (l2 ++ l1). now rewrite H2, H1, app_assoc.
+Qed.
+
+Lemma alter_and_record_sim cfg g w w' :
+  sync w w' -> sim_res (alter_and_record cfg g w) (alter_and_record cfg g w').
+Proof.
+  intro Hs. unfold alter_and_record. pose proof (exec_all_sim (alters cfg g) w w' Hs) as H.
+  destruct (exec_all w (alters cfg g)) as [w3 ok3], (exec_all w' (alters cfg g)) as [w3' ok3'].
+  destruct H as [Hok' [Hf' H]]. cbn [fst snd] in Hok', Hf', H. subst ok3'.
+  destruct H as [[-> Hs3]|[-> Hb]].
+  - now apply exec_sim.
+  - destruct (exec_nofault w3' (CPut g (desired cfg g)) Hf') as [N1 N2].
+    split; [exact N1|]. split; [exact N2|]. right. split; [reflexivity|]. cbn [fst].
+    rewrite exec_log. now apply (behind_ext _ _ [_]).
+Qed.
+
+Lemma group_op_sim cfg g w w' : sync w w' -> sim_res (group_op cfg g w) (group_op cfg g w').
+Proof.
+  intro Hs. unfold group_op. pose proof (exec_sim w w' (CGet g) Hs) as H.
+  assert (Hd : w_db w = w_db w') by apply Hs.
+  destruct (exec w (CGet g)) as [w1 ok1], (exec w' (CGet g)) as [w1' ok1'].
+  destruct H as [Hok' [Hf' H]]. cbn [fst snd] in Hok', Hf', H. subst ok1'. rewrite <- Hd.
+  destruct H as [[-> Hs1]|[-> Hb]].
+  - destruct (skip cfg g (recd (w_db w) g)).
+    + split; [reflexivity|]. split; [exact Hf'|]. left. now split.
+    + unfold forget. destruct (String.eqb (recd (w_db w) g) ""); [now apply alter_and_record_sim|].
+      pose proof (exec_sim w1 w1' (CPut g "") Hs1) as H2.
+      destruct (exec w1 (CPut g "")) as [w2 ok2], (exec w1' (CPut g "")) as [w2' ok2'].
+      destruct H2 as [Hok2' [Hf2' H2]]. cbn [fst snd] in Hok2', Hf2', H2. subst ok2'.
+      destruct H2 as [[-> Hs2]|[-> Hb2]]; [now apply alter_and_record_sim|].
+      destruct (alter_and_record_nofault cfg g w2' Hf2') as [N1 N2].
+      split; [exact N1|]. split; [exact N2|]. right. split; [reflexivity|]. cbn [fst].
+      destruct (alter_and_record_ext cfg g w2') as [x ->]. now apply behind_ext.
+  - (* the read itself failed: the uninterrupted run continues *)
+    assert (G : forall r', (exists x, w_log (fst r') = x ++ w_log w1') -> snd r' = true -> w_fault (fst r') = None ->
+                sim_res (w1, false) r').
+    { intros r' [x Hx] N1 N2. split; [exact N1|]. split; [exact N2|]. right. split; [reflexivity|]. cbn [fst].
+      rewrite Hx. now apply behind_ext. }
+    destruct (skip cfg g (recd (w_db w) g)).
+    + apply G; [now exists []|reflexivity|exact Hf'].
+    + unfold forget. destruct (String.eqb (recd (w_db w) g) "").
+      * apply G; [apply alter_and_record_ext|now apply alter_and_record_nofault..].
+      * destruct (exec w1' (CPut g "")) as [w2' ok2'] eqn:E2.
+        destruct (exec_nofault w1' (CPut g "") Hf') as [M1 M2]. rewrite E2 in M1, M2. cbn [fst snd] in M1, M2. subst ok2'.
+        pose proof (exec_log w1' (CPut g "")) as L2. rewrite E2 in L2. cbn [fst snd] in L2.
+        apply G; [|now apply alter_and_record_nofault..].
+        destruct (alter_and_record_ext cfg g w2') as [x ->]. exists (x ++ [(CPut g "", true)]).
+        now rewrite L2, <- app_assoc.
+Qed.
+
+Lemma seq_ops_sim cfg : forall gs w w', sync w w' -> sim_res (seq_ops cfg gs w) (seq_ops cfg gs w').
+Proof.
+  induction gs as [|g r IH]; intros w w' Hs.
+  - cbn. split; [reflexivity|]. split; [apply Hs|]. left. now split.
+  - cbn [seq_ops]. pose proof (group_op_sim cfg g w w' Hs) as H.
+    destruct (group_op cfg g w) as [w1 ok], (group_op cfg g w') as [w1' ok'].
+    destruct H as [Hok' [Hf' H]]. cbn [fst snd] in Hok', Hf', H. subst ok'.
+    destruct H as [[-> Hs1]|[-> Hb]]; [now apply IH|].
+    destruct (seq_ops_nofault cfg r w1' Hf') as [N1 N2].
+    split; [exact N1|]. split; [exact N2|]. right. split; [reflexivity|]. cbn [fst].
+    destruct (seq_ops_ext cfg r w1') as [x ->]. now apply behind_ext.
+Qed.
+
+(* newest-first logs: the uninterrupted run's calls are the interrupted run's calls plus later ones *)
+Lemma run_is_prefix cfg f d : exists later,
+  map fst (run_log cfg None d) = later ++ map fst (run_log cfg f d).
+Proof.
+  unfold run_log, run, rotate.
+  pose proof (seq_ops_sim cfg groups {| w_db := d; w_log := []; w_fault := f |} {| w_db := d; w_log := []; w_fault := None |}) as H.
+  destruct H as [_ [_ [[_ [_ [Hl _]]]|[_ Hb]]]]; [now split| |exact Hb].
+  exists []. now rewrite Hl.
+Qed.
+
+(* a failed call is the last call of its run: every older log entry succeeded *)
+Definition all_ok (l : list (call * bool)) : Prop := Forall (fun e => snd e = true) l.
+Definition good (r : world * bool) : Prop :=
+  if snd r then all_ok (w_log (fst r))
+  else exists c l, w_log (fst r) = (c, false) :: l /\ all_ok l.
+
+Lemma exec_good w c : all_ok (w_log w) -> good (exec w c).
+Proof.
+  intro H. unfold good, exec. destruct (w_fault w) as [[[|k] eff]|]; cbn [fst snd w_log].
+  - eauto.
+  - now constructor.
+  - now constructor.
+Qed.
+
+Lemma exec_all_good : forall cs w, all_ok (w_log w) -> good (exec_all w cs).
+Proof.
+  induction cs as [|c r IH]; intros w H; [exact H|].
+  cbn [exec_all]. pose proof (exec_good w c H) as G.
+  destruct (exec w c) as [w1 ok]. destruct ok; [now apply IH|exact G].
+Qed.
+
+Lemma alter_and_record_good cfg g w : all_ok (w_log w) -> good (alter_and_record cfg g w).
+Proof.
+  intro H. unfold alter_and_record. pose proof (exec_all_good (alters cfg g) w H) as G.
+  destruct (exec_all w (alters cfg g)) as [w3 ok3]. destruct ok3; [now apply exec_good|exact G].
+Qed.
+
+Lemma group_op_good cfg g w : all_ok (w_log w) -> good (group_op cfg g w).
+Proof.
+  intro H. unfold group_op. pose proof (exec_good w (CGet g) H) as G1.
+  destruct (exec w (CGet g)) as [w1 ok1]. destruct ok1; [|exact G1].
+  destruct (skip cfg g (recd (w_db w) g)); [exact G1|].
+  unfold forget. destruct (String.eqb (recd (w_db w) g) ""); [now apply alter_and_record_good|].
+  pose proof (exec_good w1 (CPut g "") G1) as G2.
+  destruct (exec w1 (CPut g "")) as [w2 ok2]. destruct ok2; [now apply alter_and_record_good|exact G2].
+Qed.
+
+Lemma seq_ops_good cfg : forall gs w, all_ok (w_log w) -> good (seq_ops cfg gs w).
+Proof.
+  induction gs as [|g r IH]; intros w H; [exact H|].
+  cbn [seq_ops]. pose proof (group_op_good cfg g w H) as G.
+  destruct (group_op cfg g w) as [w1 ok]. destruct ok; [now apply IH|exact G].
+Qed.
+
+Lemma run_good cfg f d : good (run cfg f d).
+Proof. unfold run, rotate. apply seq_ops_good. constructor. Qed.
+
+Lemma run_failed_call_is_last cfg f d e rest :
+  run_log cfg f d = e :: rest -> all_ok rest /\ (snd (run cfg f d) = snd e).
+Proof.
+  unfold run_log. pose proof (run_good cfg f d) as G. unfold good in G.
+  destruct (snd (run cfg f d)); intro E.
+  - rewrite E in G. inversion G; subst. split; [assumption|]. now symmetry.
+  - destruct G as [c [l [G1 G2]]]. rewrite E in G1. inversion G1; subst. now split.
+Qed.
